@@ -7,19 +7,64 @@ under several PYTHONHASHSEED values; every cell of every solution is compared wi
 `XL.Model.Book.value` and with each other.
 """
 import os, sys, json, shutil, tempfile, subprocess
+import numpy as np
 import common
 from common import Run, model
 import bookgen, bookrun
 
 RULE = ('random acyclic workbooks (2-3 sheets, 1-2 books, ~14 constants of every kind, ~12 formulas over operators and '
         'SUM/MAX/MIN/COUNT/IF/IFERROR/ABS/ISERROR/AND/OR/NOT, defined names, array formulas, blanks, one whole-column '
-        'reference in some). Each is calculated via from_dict in 3 insertion orders, via .xlsx (single-book ones) and, for a '
+        'reference in some; sheets 6x4, 3x7 or 2x8). Each is calculated via from_dict in 3 insertion orders, via .xlsx (all books loaded, and - for several books - each book loaded alone with finish() bringing in the others) and, for a '
         'sample, under 2 further PYTHONHASHSEED values. Non-trivial = at least 3 formulas with a range or name reference; '
         'distinct = distinct workbook dictionaries.')
 
 
+def cross_book_name(case):
+    """known finding cross-book-name: only one of the books was loaded explicitly and the differing cell is a formula
+    using a defined name of another workbook, or depends on such a cell"""
+    return len(case.get('loaded', [])) == 1 and bool(case.get('depends_on_cross_book_name'))
+
+
+SIGNATURES = {'cross_book_name': cross_book_name}
+
+
 def new_run():
-    return Run('C03', RULE)
+    return Run('C03', RULE, SIGNATURES)
+
+
+def tainted_cells(wb):
+    """addresses whose value depends on a formula that uses a defined name of another workbook"""
+    occ = {}
+    for (s, r, c), cont in wb.cells.items():
+        R, C = (cont[1], cont[2]) if cont[0] == 'a' else (1, 1)
+        for i in range(R):
+            for j in range(C):
+                occ[(s, r + i, c + j)] = (s, r, c)
+    direct = set()
+    dep = {}
+    def cells_of(e, seen=()):
+        out = set()
+        for kk, x in wb.deps(e):
+            if kk == 'ref':
+                s, r1, r2, c1, c2 = x
+                out |= {occ[a] for a in occ if a[0] == s and r1 <= a[1] <= r2 and c1 <= a[2] <= c2}
+            elif x not in seen:
+                out |= cells_of(wb.names[x][1], seen + (x,))
+        return out
+    for a, cont in wb.cells.items():
+        if cont[0] == 'v':
+            continue
+        if any(kk == 'name' and wb.names[x][0] != wb.sheets[a[0]][0] for kk, x in wb.deps(cont[-1])):
+            direct.add(a)
+        dep[a] = cells_of(cont[-1])
+    t = set(direct)
+    grew = True
+    while grew:
+        grew = False
+        for a, ds in dep.items():
+            if a not in t and ds & t:
+                t.add(a); grew = True
+    return {a for a, o in occ.items() if o in t}
 
 
 def check(run):
@@ -32,7 +77,9 @@ def check(run):
     nseed = 0
     try:
         for k in range(n):
-            wb = bookgen.generate(rnd, n_books=rnd.choice([1, 1, 2]), whole_col=(k % (40 if quick else 25) == 7))
+            rows_, cols_ = rnd.choice([(6, 4), (6, 4), (6, 4), (3, 7), (2, 8)])      # also sheets wider than tall
+            wb = bookgen.generate(rnd, n_books=rnd.choice([1, 1, 2]), whole_col=(k % (40 if quick else 25) == 7 and rows_ == 6),
+                                  rows=rows_, cols=cols_, n_const=min(14, rows_ * cols_), n_formula=min(12, rows_ * cols_))
             st = wb.stats()
             d = wb.to_dict()
             nontrivial = st['formulas'] >= 3 and (st['range_refs'] + st['name_refs']) >= 1
@@ -87,6 +134,34 @@ def check(run):
                 except Exception as ex:
                     run.violation('the .xlsx loading path raised %s: %s' % (type(ex).__name__, str(ex)[:100]), case)
                 shutil.rmtree(dd, ignore_errors=True)
+            # (3b) several books: all files at once, and one file at a time (the others are brought in by finish())
+            else:
+                dd = os.path.join(tmp, 'w%d' % k)
+                os.makedirs(dd)
+                cwd = os.getcwd()
+                os.chdir(dd)
+                try:
+                    paths = [os.path.basename(p) for p in wb.to_xlsx(dd)]
+                    taint = tainted_cells(wb)
+                    for sel in [paths] + [[p] for p in paths]:
+                        run.count(1, None, False, 'xlsx-path-%s' % ('all-books' if len(sel) > 1 else 'one-book-then-finish'))
+                        case3 = dict(case, loaded=sel)
+                        try:
+                            m3 = bookrun.ExcelModel().loads(*sel).finish()
+                            v3 = bookrun.solution_values(wb, m3.calculate())
+                        except Exception as ex:
+                            run.violation('loads(%s).finish().calculate() raised %s: %s' % (sel, type(ex).__name__, str(ex)[:100]), case3)
+                            continue
+                        own = {i for i, (b, _) in enumerate(wb.sheets) if b in sel}
+                        diff = [a for a in base if base[a] != v3[a] and (a[0] in own or v3[a] != 'missing')]
+                        if diff:
+                            a = ([x for x in diff if x not in taint] or diff)[0]
+                            run.violation('cell %s is %s through the dictionary and %s after loads(%s).finish()' % (
+                                wb.key(*a), bookrun.show(base[a]), bookrun.show(v3[a]), ', '.join(sel)),
+                                dict(case3, cell=wb.key(*a), depends_on_cross_book_name=a in taint))
+                finally:
+                    os.chdir(cwd)
+                    shutil.rmtree(dd, ignore_errors=True)
             # (4) hash seeds (subprocess; a sample)
             if k % (15 if quick else 50) == 0:
                 keys = [wb.key(s, r, c) if cont[0] != 'a' else wb.key(s, r, c, cont[1], cont[2]) for (s, r, c), cont in wb.cells.items()]
@@ -113,6 +188,31 @@ def check(run):
                     if outs[0] != mine:
                         kk = [x for x in mine if outs[0].get(x) != mine[x]][0]
                         run.violation('cell %s differs between this process and PYTHONHASHSEED=1: %s vs %s' % (kk, mine[kk], outs[0].get(kk)), dict(case, cell=kk))
+        # the exact witness of known finding cross-book-name, on the one-book-then-finish path
+        wd = os.path.join(tmp, 'witness')
+        os.makedirs(wd)
+        cwd = os.getcwd()
+        os.chdir(wd)
+        try:
+            import openpyxl
+            from openpyxl.workbook.defined_name import DefinedName
+            b1 = openpyxl.Workbook(); s1 = b1.active; s1.title = 'S1'; s1['A1'] = 5
+            dn = DefinedName('MYNAME', attr_text='S1!$A$1')
+            try:
+                b1.defined_names['MYNAME'] = dn
+            except TypeError:
+                b1.defined_names.append(dn)
+            b1.save('b1.xlsx')
+            b2 = openpyxl.Workbook(); s2 = b2.active; s2.title = 'S1'; s2['B4'] = "='[b1.xlsx]'!MYNAME*2"
+            b2.save('b2.xlsx')
+            both = bookrun.ExcelModel().loads('b1.xlsx', 'b2.xlsx').finish().calculate()
+            one = bookrun.ExcelModel().loads('b2.xlsx').finish().calculate()
+            w = [bookrun.wire_impl(np.asarray(x["'[b2.xlsx]S1'!B4"].value, object)[0, 0]) for x in (both, one)]
+        except Exception as ex:
+            w = ['raised', type(ex).__name__]
+        finally:
+            os.chdir(cwd)
+        run.replay_witness('cross-book-name', w[0] != w[1], {'witness': "b2.xlsx S1!B4 = '[b1.xlsx]'!MYNAME*2: loads(b1, b2) vs loads(b2), finish, calculate", 'B4': w})
     finally:
         shutil.rmtree(tmp, ignore_errors=True)
     answers = model(req)
